@@ -18,7 +18,8 @@ DECIDED = [
     "DESTROY: clean-up frees every active page and the working page of every bin and cleans both lists and the mutex",
 ]
 NOT_DECIDED = ["disjointness of live blocks and metric equality as run-time facts over histories", "interleavings (only the lock protocol)"]
-ASSUMPTIONS = ["posix_memalign returns memory aligned as requested", "aws_array_list operations behave as a sequence (C09)"]
+ASSUMPTIONS = ["posix_memalign returns memory aligned as requested", "aws_array_list operations behave as a sequence (C09)",
+               "the contents of live blocks do not forge a page header: the small/large decision reads the two 64-bit tags at the 4 KiB boundary below the block, which for a large block lies in memory the allocator does not own (a neighbouring user block holding the tag value twice at that boundary makes release take the small-block path; the property quantifies over histories and sizes, not over block contents)"]
 
 
 def sba_lock(fn, call):
